@@ -122,6 +122,11 @@ func ProfileFor(prop string) *Profile {
 		p.Gang = 400
 		p.MaxApps = 9
 		p.W = scale(p.W, map[string]int{OpAddApp: 90, OpRmApp: 25, OpFireState: 30, OpRelease: 80, OpFirePH: 14})
+	case "C12":
+		p.Gang = 300
+		p.Steps = [2]int{20, 90}
+		p.Reloads = true
+		p.W = scale(p.W, map[string]int{OpReload: 6, OpForeign: 20, OpBound: 16, OpDecom: 4, OpRmApp: 6, OpFirePH: 2, OpFireState: 4})
 	case "C16":
 		p.Reloads = true
 		p.W = scale(p.W, map[string]int{OpReload: 40, OpCleanup: 20, OpAddApp: 60})
